@@ -301,7 +301,7 @@ Definition general_position_open (S C O : paths) : bool :=
 
 (* The vertex rule of general position among the open segments: every open vertex is >= 3 units from every open
    segment it is not an end of by index (proper self-crossings are allowed).  False for 180-degree spikes, first = last
-   loops, collinear overlaps.  Part of the hypothesis [general_position_C05] below. *)
+   loops, collinear overlaps.  Part of the strict class [general_position_C05] below. *)
 Definition open_self_clear (O : paths) : bool :=
   let oes := open_tedges_from 0 O in
   forallb (fun ip =>
@@ -311,8 +311,8 @@ Definition open_self_clear (O : paths) : bool :=
       (combine (seq 0 (length (snd ip))) (snd ip)))
     (combine (seq 0 (length O)) O).
 
-(* The hypothesis of C05 ("open polylines together with closed subject and clip paths in general position") is general
-   position of the WHOLE input, all edges alike, in the sense the property set defines the term (C01): every input vertex
+(* The STRICT input class of the C05 validation is general position of the WHOLE input (inputs whose closed paths are in
+   general position but whose open polylines are not are judged by [check_open_robust] further down), all edges alike, in the sense the property set defines the term (C01): every input vertex
    and every pairwise proper crossing is >= 3 units from every input edge it does not lie on by construction - no touching,
    no overlapping collinear edges, no three edges through one point.  Beyond [general_position_open] (closed paths among
    themselves, open against closed) this asks
